@@ -104,7 +104,32 @@ def check_us(sec, us, to_pv, to_ns, bad, cap=20, to_span=None):
     return got
 
 
+# process time zones (POSIX rules, no tz database needed): the conversion
+# must not depend on where the tool runs
+ZONES = {"london": "GMT0BST,M3.5.0/1,M10.5.0",
+         "new_york": "EST5EDT,M3.2.0,M11.1.0",
+         "kolkata": "IST-5:30"}
+
+
+def set_zone(tz):
+    import os
+    import time
+    os.environ["TZ"] = tz or "UTC0"
+    time.tzset()
+
+
 def handle(task):
+    set_zone(ZONES.get(task.get("tz")))
+    try:
+        r = _handle(task)
+    finally:
+        set_zone(None)
+    for b in r["bad"]:
+        b.append(task.get("tz"))
+    return r
+
+
+def _handle(task):
     from tel2puml.utils import unix_nano_to_pv_string as to_pv
     from tel2puml.pv_to_tel import convert_timestamp_to_unix_nano as to_ns
     from tel2puml.pv_to_tel import pv_event_to_otel as to_span
@@ -178,6 +203,17 @@ def build(tier, ctx):
             for y in range(1970, 2101) for k in (0, 58, 59, 60, 180, 364)]
     for i in range(0, len(mids), 200):
         tasks.append({"kind": "grid", "secs": mids[i:i + 200]})
+    # the same conversions with the process in other time zones: seasonal
+    # anchors of every year, and every second of the days on which the UK
+    # and the US change their clocks
+    for tz in ZONES:
+        for i in range(0, len(mids), 200):
+            tasks.append({"kind": "grid", "secs": mids[i:i + 200], "tz": tz})
+        for y, m, d in ((2024, 3, 10), (2024, 3, 31), (2024, 10, 27),
+                        (2024, 11, 3)):
+            d0 = int((datetime(y, m, d) - EPOCH).total_seconds())
+            tasks.append({"kind": "seconds", "lo": d0, "hi": d0 + 86400,
+                          "tz": tz})
     return tasks
 
 
@@ -189,10 +225,13 @@ def collect(tier, tasks, results, ctx):
         distinct += r["distinct"]
         trunc += r["nbad"] - len(r["bad"])
         for b in r["bad"]:
-            viol.append({"key": input_key(["C16", b[0], b[1]]),
+            tz, b = b[-1], b[:-1]
+            viol.append({"key": input_key(["C16", b[0], b[1]] +
+                                          ([tz] if tz else [])),
                          "what": f"{b[0]}({b[1]}) = {b[2]!r}, reference "
-                                 f"{b[3]!r}",
-                         "input": {"fn": b[0], "arg": b[1]},
+                                 f"{b[3]!r}" + (f" [TZ={ZONES[tz]}]"
+                                                if tz else ""),
+                         "input": {"fn": b[0], "arg": b[1], "tz": tz},
                          "observed": b[2], "expected": b[3]})
     cov = {
         "evaluations": n, "distinct_nontrivial": distinct,
@@ -208,7 +247,8 @@ def collect(tier, tasks, results, ctx):
         "exhaustive": True,
         "bounds": {"tier": tier, "anchors": len(anchors()),
                    "edge_us": len(M_EDGE),
-                   "full_microsecond_sweeps": 4 if tier == "quick" else 16},
+                   "full_microsecond_sweeps": 4 if tier == "quick" else 16,
+                   "process_time_zones": ["UTC"] + sorted(ZONES.values())},
         "violations_not_itemised": trunc,
     }
     return {"violations": viol, "coverage": cov, "harness_error": None,
@@ -223,6 +263,7 @@ def replay(rec, ctx):
     from tel2puml.utils import unix_nano_to_pv_string as to_pv
     from tel2puml.pv_to_tel import convert_timestamp_to_unix_nano as to_ns
     i = rec["input"]
+    set_zone(ZONES.get(i.get("tz")))
     if i["fn"].startswith("ns_to_pv"):
         got = to_pv(i["arg"])
         exp = rec["expected"]
